@@ -12,8 +12,6 @@ Lemma orderbook_c name node fe rg orders :
   map (fun o => Qred (o_capa o * qsumx (map (fun k => nth k (rg_dt rg) 0 * nth k (rg_disc rg) 0) (ob_sel rg o)) * o_price o)) orders.
 Proof. reflexivity. Qed.
 
-Lemma nth_repeat_q v n j : (j < n)%nat -> nth j (repeat v n) 0 = v.
-Proof. revert j. induction n as [|n IH]; intros [|j] H; cbn [repeat nth]; try lia; auto. apply IH. lia. Qed.
 
 (* every order is executed at a fraction between 0 and 1 *)
 Theorem order_bounds name node fe rg orders x :
